@@ -532,3 +532,52 @@ Proof.
   destruct (H Hin) as (_ & _ & Hb). rewrite Rabs_pos_eq in Hb by apply Raux.bpow_ge_0.
   apply Raux.lt_bpow in Hb. cbv [f32_fmt femax snd] in Hb. lia.
 Qed.
+
+(* ====================================================================== (V) constants materialised in single precision and widened *)
+(* names, inside one graph, of constants that are single precision: FLOAT/COMPLEX64 initializers and outputs of Constant nodes
+   whose payload is a FLOAT/COMPLEX64 tensor or a float attribute (value_float / value_floats) *)
+Definition single_payload (kv : string * attr) : bool :=
+  match snd kv with ATensor d _ _ => is_single d | AFloat | AFloats => true | _ => false end.
+Definition single_const_outs (nodes : list onode) : list string :=
+  flat_map (fun n => if String.eqb (on_op n) "Constant"%string && existsb single_payload (on_attrs n) then on_outs n else []) nodes.
+Definition single_const_names (g : ograph) : list string :=
+  map vi_name (filter (fun vi => is_single (vi_dtype vi)) (og_inits g)) ++ single_const_outs (og_nodes g).
+Definition is_cast_to_double (n : onode) : bool :=
+  String.eqb (on_op n) "Cast"%string &&
+  existsb (fun kv => match snd kv with AInt z => String.eqb (fst kv) "to"%string && is_double z | _ => false end) (on_attrs n).
+Definition widened_in (consts : list string) (nodes : list onode) : list string :=
+  flat_map (fun n => if is_cast_to_double n then filter (fun i => str_mem i consts) (on_ins n) else []) nodes.
+Definition graph_widened (g : ograph) : list string := widened_in (single_const_names g) (og_nodes g).
+Definition fun_widened (f : ofunction) : list string := widened_in (single_const_outs (of_nodes f)) (of_nodes f).
+Definition is_nil {A} (l : list A) : bool := match l with [] => true | _ => false end.
+Definition no_widened_single_const (m : omodel) : bool :=
+  forallb (fun g => is_nil (graph_widened g)) (om_graphs m) && forallb (fun f => is_nil (fun_widened f)) (om_functions m).
+
+Lemma widened_in_nil consts nodes : widened_in consts nodes = [] ->
+  forall n i, In n nodes -> is_cast_to_double n = true -> In i (on_ins n) -> str_mem i consts = false.
+Proof.
+  unfold widened_in. intros H n i Hn Hc Hi.
+  pose proof (proj1 (flat_map_nil _ _) H n Hn) as Hx. cbv beta in Hx. rewrite Hc in Hx.
+  destruct (str_mem i consts) eqn:E; auto.
+  assert (In i (filter (fun i0 => str_mem i0 consts) (on_ins n))) by (apply filter_In; auto).
+  rewrite Hx in H0. contradiction.
+Qed.
+
+(* no Cast(to=DOUBLE/COMPLEX128) of any graph or function body reads a single-precision constant of its own scope *)
+Theorem no_widened_single_const_sound m : no_widened_single_const m = true ->
+  (forall g n i, In g (om_graphs m) -> In n (og_nodes g) -> is_cast_to_double n = true -> In i (on_ins n) ->
+     str_mem i (single_const_names g) = false) /\
+  (forall f n i, In f (om_functions m) -> In n (of_nodes f) -> is_cast_to_double n = true -> In i (on_ins n) ->
+     str_mem i (single_const_outs (of_nodes f)) = false).
+Proof.
+  unfold no_widened_single_const. rewrite andb_true_iff, !forallb_forall. intros [HG HF]. split.
+  - intros g n i Hg. specialize (HG g Hg). unfold is_nil in HG. destruct (graph_widened g) eqn:E; [|discriminate].
+    now apply widened_in_nil.
+  - intros f n i Hf. specialize (HF f Hf). unfold is_nil in HF. destruct (fun_widened f) eqn:E; [|discriminate].
+    now apply widened_in_nil.
+Qed.
+
+Example widened_const_rejected :
+  no_widened_single_const (mkOM 10 [] [mkOG 0 None [] [mkVI "c"%string 1 (Some [])]
+     [mkON "Cast"%string ""%string "k"%string ["c"%string] ["d"%string] [("to"%string, AInt 11)]] [mkVI "d"%string 11 None] []] []) = false.
+Proof. reflexivity. Qed.
